@@ -592,9 +592,7 @@ func (ctl *c12Ctl) step(t int) bool {
 		}
 	}
 	th.resume <- struct{}{}
-	select {
-	case <-ctl.back:
-	case <-time.After(5 * time.Second):
+	if _, ok := recvBusyAware(ctl.back, 5*time.Second); !ok {
 		return false
 	}
 	ctl.checkPool()
